@@ -9,6 +9,9 @@ import Gotree.Lemmas.C04Hash
 import Gotree.Lemmas.C04Quart
 import Gotree.Lemmas.C04Transport
 import Gotree.Proofs.C05
+import Gotree.Model.C04Facts
+import Gotree.Lemmas.C04DumpCli
+import Gotree.Gen.C04Facts
 
 namespace Gotree.C04
 open Gotree
@@ -506,5 +509,71 @@ theorem indexQuartets_plain_map (policy : Nat → Nat → Bool) (cap : Nat) (qs 
 theorem hm_cap0_pinned_panics (hash : Nat → UInt64) (eqv : Nat → Nat → Bool) (policy : Nat → Nat → Bool) (k v : Nat) :
     HM.run hash eqv policy [.put k v] (HM.newPinned 0) = [.panic] := by
   simp [HM.run, HM.put, HM.newPinned]
+
+/-! ## `Edge.DumpBitSet` and `gotree stats splits` -/
+
+/-- `dumpBitSet_correct`: on a tree with unique tip names (any number of tips since fix 405e36d), after `ReinitIndexes`
+    the dump of every branch (`Edge.DumpBitSet`, what `gotree stats splits` prints after the tree number) shows one
+    digit per tip in the order of the header — the sorted names from the last to the first — '1' exactly for the
+    tips below the branch, then a dot. -/
+theorem dumpBitSet_correct (H : String → UInt64) (t : T) (hn : t.tipNames.Nodup)
+    (i : Nat) (hi : i < t.splits.length) (e : EdgeIdx) (he : indexOf H t i = some e) :
+    dumpBitSet (some e.bits) = specDumpLine t.tipNames (t.splits[i]).below := by
+  rw [indexOf_eq H t hn i hi] at he
+  cases he
+  exact dumpBitSet_spec H _ _
+
+/-- `statsSplits_correct`: the body of `gotree stats splits` for one tree with unique tip names prints the header
+    (`Tree<TAB>` and the sorted names from the last to the first joined by `|`) and, per branch in `Edges()` order,
+    the tree number, a tab and one aligned digit per tip followed by a dot — never an error. -/
+theorem statsSplits_correct (id : Nat) (t : T) (hn : t.tipNames.Nodup) (hne : t.tipNames ≠ []) :
+    statsSplits id t = .ok (specSplitsHeader t.tipNames ++ "\n" ++
+      String.join (t.splits.map fun s => toString id ++ "\t" ++ specDumpLine t.tipNames s.below ++ "\n")) :=
+  statsSplits_eq id t hn hne
+
+-- five tips, the two lowest ranks below the branch
+example : dumpBitSetL (some [true, true, false, false, false]) = ['0', '0', '0', '1', '1', '.'] := by decide
+example : exT.tipNames.Nodup ∧ exT.tipNames ≠ [] := by decide
+
+/-- Fix 405e36d changes nothing up to 64 tips: the pinned `DumpBitSet` (slice of `DumpAsBits`) printed the same. -/
+theorem dumpBitSet_pinned_le64 (b : List Bool) (h1 : 1 ≤ b.length) (h2 : b.length ≤ 64) :
+    dumpBitSetPinnedL (some b) = some (dumpBitSetL (some b)) := by
+  rw [dumpBitSetPinnedL_le64 b h1 h2, dumpBitSetL_eq]
+
+/-- the pinned `DumpBitSet` never panicked on the bitsets `ClearBitSets` creates: it returned `Len + 1` characters
+    (one of them a dot per 64-bit word, hence too few digits above 64 tips) -/
+theorem dumpBitSet_pinned_total (b : List Bool) (h1 : 1 ≤ b.length) :
+    ∃ s, dumpBitSetPinnedL (some b) = some s ∧ s.length = b.length + 1 := dumpBitSetPinnedL_total b h1
+
+set_option maxRecDepth 8000 in
+/-- F95 (before fix 405e36d): above 64 tips `DumpBitSet` kept the last `Len+1` characters of a dump that holds one dot
+    per 64-bit word, so one leading digit was lost per word above the first: with 65 tips the bitset of the branch
+    above the tip of rank 64 and the empty bitset printed the same 66 characters — `gotree stats splits` showed that
+    tip's own branch as all zeros.  The repaired model tells them apart. -/
+theorem dumpBitSet_pinned_fails :
+    dumpBitSetPinnedL (some (mkBits 65 [64])) = dumpBitSetPinnedL (some (mkBits 65 [])) ∧
+    dumpBitSetL (some (mkBits 65 [64])) ≠ dumpBitSetL (some (mkBits 65 [])) ∧
+    (dumpBitSetPinnedL (some (mkBits 65 [64]))).map (·.length) = some 66 ∧
+    (dumpBitSetL (some (mkBits 65 [64]))).length = 66 := by
+  refine ⟨by decide, by decide, by decide, by decide⟩
+
+/-! ## facts about the source, regenerated on every run (`vh gen-tables`, harness/c04/extract.go) -/
+
+/-- Table (a) `Gen.C04Facts.reach`: every edit of the histories that the harness reads "straight after its own
+    recompute" (and `ReinitIndexes` / `ReinitInternalIndexes` themselves) still reaches, through calls inside
+    package tree, the index routines the model runs for it (`Facts.assumedReach`).  When this fails, an edit has
+    stopped recomputing something: the `own-recompute` cases of `C04.index` are the replay (stale bitsets, counts
+    or ranks are judged there against the splits of the edited tree). -/
+theorem recompute_table_check :
+    Facts.reachOK Gotree.Gen.C04Facts.reach = true ∧ Gotree.Gen.C04Facts.problems = [] := by decide
+
+/-- Table (b) `Gen.C04Facts.facts`: the one-line decisions the model copies by hand — `indexFor`'s mask, the
+    rehash test (`>=`, float64 product) and growth factor 2, `NewHashMap`'s size 0 → 1, the three-way choice of
+    `Edge.HashCode`, `HashEquals`, `SameBipartition`, `TopoDepth`, the filter of `EdgeIndex.Edges`, the five
+    compare-and-swap steps and the polynomial of `Quartet.HashCode`, `fnv.New64a`, the bytewise comparator of
+    `SortedTips`, the capacity of `IndexQuartets`, the width `ClearBitSets` gives the bitsets — read today as
+    `Facts.assumedFacts` says.  When this fails, the listed function was rewritten: the generated cases (hm / ei /
+    pairs / quartet, every capacity and tie) look for a failing input; if none is found the model must be re-read. -/
+theorem facts_table_check : Facts.factsDiff Gotree.Gen.C04Facts.facts = [] := by decide
 
 end Gotree.C04
